@@ -203,6 +203,22 @@ def run_unit(unit, rec):
                             if not okw_:
                                 _v(rec, "a", dict(sig, what="int-typed wavelengths"), "%s with integer-typed wavelengths differs from the conversion with the same wavelengths as floats" % direction, dict(case, dtype="int-wavelengths"),
                                    script="import numpy as np, dreye\nx = np.array(%r)\nprint(dreye.%s(x, np.array(%r), prefix=%r%s))\n" % (arr_np.tolist(), direction, np.asarray(w).astype(np.int64).tolist(), prefix, "" if axis is None else ", axis=%d" % axis))
+                        # small integer types for spectrum AND wavelengths (16-bit digitiser counts): no silent wrap-around
+                        if inp == "plain" and ru is None and sname == "onehot0" and wax is None and arr_np.ndim >= 1 and prefix in (None, "micro"):
+                            rec.trans()
+                            try:
+                                a16 = (np.abs(arr_np) * 300).astype(np.uint16)
+                                w16 = np.asarray(w).astype(np.uint16)
+                                exp16 = _ref(direction, a16.astype(float), wl_b, prefix)
+                                o16 = _mag(fn(a16, w16, **kw))
+                                ok16 = o16.shape == np.shape(exp16) and np.all(np.abs(o16 - exp16) <= 1e-12 * np.abs(exp16) + 1e-300)
+                            except Exception as e:  # noqa
+                                ok16 = False
+                            rec.outcome("uint16-typed/%s" % ("ok" if ok16 else "bad"))
+                            if not ok16:
+                                _v(rec, "a", dict(sig, what="uint16-typed"), "%s of a uint16 spectrum with uint16 wavelengths differs from the conversion of the same values as floats" % direction, dict(case, dtype="uint16"),
+                                   script="import numpy as np, dreye\nx = np.array(%r, dtype=np.uint16)\nw = np.array(%r, dtype=np.uint16)\nprint(dreye.%s(x, w, prefix=%r%s), dreye.%s(x.astype(float), w.astype(float), prefix=%r%s))\n" % (
+                                       a16.tolist(), np.asarray(w).astype(int).tolist(), direction, prefix, "" if axis is None else ", axis=%d" % axis, direction, prefix, "" if axis is None else ", axis=%d" % axis))
                         # integer-typed spectra (photon counts, digitiser units): the same numbers as floats
                         if inp == "plain" and ru is None and arr_np.ndim >= 1 and np.all(arr_np * 4 == np.round(arr_np * 4)) and sname != "zero":
                             rec.trans()
